@@ -431,6 +431,23 @@ def scenario(run):
     run.do(('RmDir', (b'D',), (b'dir',)))
 
 
+def ptr_scenario(run):
+    """A fixed CLEAN history: enough directories with long names in both namespaces to take BOTH path tables across
+    4096 bytes (ISO9660: 8+207 per record, Joliet: 8+128 per record) and back."""
+    def iname(i):
+        return b'D' * 205 + bytes([65 + i // 26, 65 + i % 26])
+
+    def jname(i):
+        return b'j' * 62 + bytes([97 + i // 26, 97 + i % 26])
+    for i in range(34):
+        run.do(('AddDir', ((), iname(i)), ((), jname(i))))
+    run.do(('AddFile', ((iname(3),), b'F.;1'), ((jname(3),), b'f'), 2049))
+    for i in [33, 0, 20, 32, 31, 30, 29, 28]:
+        run.do(('RmDir', (iname(i),), (jname(i),)))
+    run.do(('RmFile', 'jol', (jname(3),), b'f'))
+    run.do(('RmDir', (iname(3),), (jname(3),)))
+
+
 def late_scenario(run):
     """add_fp whose Joliet parent is missing: refused, but the ISO9660 record stays behind."""
     run.do(('AddDir', ((), b'D'), ((), b'dir')))
@@ -464,7 +481,7 @@ def example(run):
         run.do(op)
 
 
-FIXED = {'scenario': scenario, 'example': example, 'late_scenario': late_scenario, 'late_scenario_dir': late_scenario_dir,
+FIXED = {'scenario': scenario, 'example': example, 'ptr_scenario': ptr_scenario, 'late_scenario': late_scenario, 'late_scenario_dir': late_scenario_dir,
          'late_scenario_rmdir': late_scenario_rmdir}
 
 
